@@ -109,9 +109,20 @@ def acctDenoms (s : State) (a : Addr) : List Denom :=
     | none => []
   (Coins.denoms (Ledger.balances s.ledger a) ++ Coins.denoms (Ledger.balances s.holds a) ++ Coins.denoms ov).eraseDups
 
+/-- `spendableCoinsOver` for every denom of `ds` at once: the "is any entry negative" scan of
+`SafeSub` is made once instead of once per denom (an account may carry hundreds of denoms) -/
+def spendableAllOver (s : State) (c : Ctx) (a : Addr) (ds : List Denom) : Coins :=
+  let unl := ds.map fun d => (d, s.bal a d - lockedCoins s c a d)
+  let hasNeg := unl.any fun p => decide (p.2 < 0)
+  unl.map fun p => (p.1, if !hasNeg then p.2 else if 0 < p.2 then p.2 else 0)
+
+/-- it is `spendableCoinsOver`, denom by denom -/
+theorem spendableAllOver_eq (s : State) (c : Ctx) (a : Addr) (ds : List Denom) :
+    spendableAllOver s c a ds = ds.map fun d => (d, spendableCoinsOver s c a ds d) := by
+  simp [spendableAllOver, spendableCoinsOver, List.any_map, Function.comp_def]
+
 def spendableStr (s : State) (c : Ctx) (a : Addr) : String :=
-  let ds := acctDenoms s a
-  showC (posCoins (ds.map fun d => (d, spendableCoinsOver s c a ds d)))
+  showC (posCoins (spendableAllOver s c a (acctDenoms s a)))
 
 def lockedStr (s : State) (c : Ctx) (a : Addr) : String :=
   showC (posCoins ((acctDenoms s a).map fun d => (d, lockedCoins s c a d)))
@@ -588,7 +599,7 @@ def execOp (ds : DState) (ws : List String) : DState × String :=
   | ["spendable", a] =>
     let ds' := acctDenoms ds.s a
     let bal := Ledger.balances ds.s.ledger a
-    let over := posCoins ((Coins.denoms bal).map fun d => (d, spendableCoinsOver ds.s {} a ds' d))
+    let over := posCoins ((spendableAllOver ds.s {} a ds').filter fun p => (Coins.denoms bal).contains p.1)
     let by' := posCoins ((Coins.denoms bal).map fun d => (d, spendableCoin ds.s {} a d))
     (ds, s!"ok {showC over} {showC by'}")
   | "kspend" :: a :: rest =>
